@@ -282,7 +282,7 @@ var osList = []string{"linux", "windows", "darwin", "freebsd"}
 
 // architecture spellings with the variants that apply to them
 var archVariants = [][2]string{
-	{"amd64", ""}, {"amd64", "v1"}, {"amd64", "v2"}, {"amd64", "v3"},
+	{"amd64", ""}, {"amd64", "v1"}, {"amd64", "v2"}, {"amd64", "v3"}, {"amd64", "v4"},
 	{"x86_64", ""}, {"x86_64", "v1"}, {"x86_64", "v2"}, {"x86_64", "v3"},
 	{"x86-64", ""}, {"x86-64", "v1"}, {"x86-64", "v2"}, {"x86-64", "v3"},
 	{"386", ""}, {"i386", ""},
@@ -308,7 +308,7 @@ var osList4 = []string{"linux", "windows", "darwin"}
 // with an empty platform object, and entries with an absent field (OS only,
 // architecture only).
 func buildUniverse(oss []string, avs [][2]string, vers []string) []Plat {
-	u := []Plat{{Nil: true}, {}}
+	u := []Plat{{Nil: true}, {}, {OS: "unknown", Arch: "unknown"}} // the last one is buildkit's attestation entry
 	for _, o := range oss {
 		u = append(u, Plat{OS: o})
 	}
@@ -334,7 +334,7 @@ func requestsOf(u []Plat) []Plat {
 	var out []Plat
 	for _, p := range u {
 		c := refNorm(p)
-		if !c.ok || c.arch == "" || c.os == "" || seen[c] {
+		if !c.ok || c.arch == "" || c.os == "" || c.os == "unknown" || seen[c] {
 			continue
 		}
 		seen[c] = true
@@ -347,7 +347,7 @@ func requestsOf(u []Plat) []Plat {
 func rawRequestsOf(u []Plat) []Plat {
 	var out []Plat
 	for _, p := range u {
-		if !p.Nil && p.Arch != "" && p.OS != "" {
+		if !p.Nil && p.Arch != "" && p.OS != "" && p.OS != "unknown" {
 			out = append(out, p)
 		}
 	}
